@@ -454,6 +454,41 @@ pub fn ep_theme() -> impl Strategy<Value = RawPos> {
         })
 }
 
+/// Seven to nine like pieces (knights, bishops, rooks or queens) of one side plus pawns of that
+/// side on the seventh: promoting adds a ninth / tenth piece of the kind (legal material).
+pub fn crowded_promo() -> impl Strategy<Value = RawPos> {
+    (
+        any::<bool>(),
+        1u8..5,
+        7usize..10,
+        prop::collection::vec(0u8..64, 9),
+        prop::collection::vec(0u8..8, 1..3),
+        0u8..64,
+        0u8..64,
+        prop::collection::vec(item(), 0..3),
+    )
+        .prop_map(|(white, kind, n, squares, pawn_files, wk, bk, extras)| {
+            let mut items = Vec::new();
+            let r7: u8 = if white { 6 } else { 1 };
+            for f in &pawn_files {
+                items.push((r7 * 8 + f, 0u8, white));
+            }
+            for s in squares.iter().take(n) {
+                items.push((*s, kind, white));
+            }
+            items.extend(extras);
+            RawPos {
+                wk,
+                bk,
+                items,
+                white_to_move: white,
+                rights: 0,
+                ep_file: None,
+                half: 0,
+            }
+        })
+}
+
 /// The position one ply BEFORE an en-passant set-up: the double step is still to be played
 /// (so its annotation - check, mate, or neither - and its label are exercised).
 pub fn pre_double_step() -> impl Strategy<Value = String> {
@@ -856,6 +891,7 @@ pub fn seed_fen() -> BoxedStrategy<String> {
         2 => castle_theme().prop_map(|r| build(&r).fen()),
         2 => ep_theme().prop_map(|r| build(&r).fen()),
         2 => promo_theme().prop_map(|r| build(&r).fen()),
+        1 => crowded_promo().prop_map(|r| build(&r).fen()),
         1 => pin_check_theme().prop_map(|r| build(&r).fen()),
         1 => ambiguity_theme().prop_map(|r| build(&r).fen()),
     ]
@@ -877,6 +913,7 @@ pub fn position() -> BoxedStrategy<String> {
         3 => ep_theme().prop_map(|r| build(&r).fen()),
         1 => pre_double_step(),
         2 => promo_theme().prop_map(|r| build(&r).fen()),
+        1 => crowded_promo().prop_map(|r| build(&r).fen()),
         3 => pin_check_theme().prop_map(|r| build(&r).fen()),
         2 => cage_theme().prop_map(|r| build(&r).fen()),
         1 => ambiguity_theme().prop_map(|r| build(&r).fen()),
